@@ -1311,7 +1311,7 @@ def seqno_marks(fns):
     # recognisably narrower than "every table": an adaptor that selects a subset of levels / runs / tables sits in
     # the function, or a second way of producing the result (early return) exists
     narrowing = [b.callee for b in live_blocks(g) if b.kind == "call" and (
-        re.search(r"as Iterator>::(find|find_map|filter|filter_map|take|skip|nth|last|next|next_back|take_while|skip_while|step_by|position|rev)\b", b.callee)
+        re.search(r"as Iterator>::(find|find_map|take|skip|nth|last|next|next_back|take_while|skip_while|step_by|position)\b", b.callee)
         or re.search(r"(::first|::last|::get|::level|::l0|::split_first|::split_last|Index<[^>]*>>::index)$", b.callee))]
     if exact and not narrowing:
         chain_ok = True
@@ -1608,6 +1608,23 @@ def value_type_table(fns):
         if len(cs) != 1:
             # a different constructor is used: decidable as wrong only if it is one of the known sibling constructors
             others = calls(fn, r"InternalValue::(from_components|new_tombstone|new_weak_tombstone)::<")
+            implied = {"new_tombstone": "Tombstone", "new_weak_tombstone": "WeakTombstone"}
+            exp_t = want or implied.get(ctor.split("::")[1], None)
+            if len(others) == 1 and exp_t:
+                oc = others[0]
+                on = re.search(r"InternalValue::(\w+)::<", oc.callee).group(1)
+                oargs = [x.strip() for x in mir.split_top(oc.args)]
+                got_t = implied.get(on) or (_vt_of_operand(fn, oc, oargs[3]) if len(oargs) > 3 else None)
+                if got_t is None:
+                    raise MirError("%s: entry constructor %s with an unresolvable type" % (short, on))
+                okc = got_t == exp_t
+                a.name = "O13.3t %s::%s creates entry type %s" % (where, short, exp_t)
+                a.glue = [("entry type = %s (built through %s, found %s)" % (exp_t, on, got_t), "proved" if okc else "refuted", 0.0)]
+                a.var("x")
+                a.event("call:entry built with the WRONG type", [] if okc else [oc.idx])
+                a.require("call:entry built with the WRONG type", "false", "%s::%s writes a %s entry (expected %s)" % (where, short, got_t, exp_t))
+                out.append(a)
+                continue
             if len(others) == 1:
                 a.glue = [("entry constructor is %s" % ctor, "refuted", 0.0)]
                 a.var("x")
@@ -1894,8 +1911,11 @@ def mark_deleted_census(fns):
     if not users:
         raise MirError("mark_as_deleted has no users at all (pattern drift)")
     out = []
+    early = r"src/version/|src/table/|src/vlog/|src/memtable|src/range|src/merge|src/mvcc_stream|src/run_|::choose(::|$)|src/compaction/stream\.rs|src/compaction/(leveled|fifo|major|drop_range|pulldown|movedown|maintenance)"
     for f in users + stores:
         allowed = any(re.search(rx, f.name) for rx in MARK_SITES)
+        if not allowed and not re.search(early, f.name + " " + (f.closure_span() or "")):
+            raise MirError("mark_as_deleted is used by %s, which is neither a known publish-then-delete site nor a function that runs before publication by construction - cannot be judged" % f.name[-80:])
         a = Automaton(f, "O16.5 %s may flag files for deletion: it is one of the publish-then-delete sites" % f.name[-60:])
         a.glue = [("function is in the list of publish-then-delete sites (each decided by O5.3 / O16.4)", "proved" if allowed else "refuted", 0.0)]
         a.var("x")
@@ -2070,3 +2090,91 @@ def blob_read_verifies(fns):
 
 
 SPECS["O10.8"] = [blob_read_verifies]
+
+
+# ---------------------------------------------------------------------------------------------
+# C08 O8.4: flush with key-value separation - values at or above the threshold go to the blob writer and are
+# replaced by a pointer, smaller ones stay inline, tombstones never touch the blob writer
+# ---------------------------------------------------------------------------------------------
+
+def _reaches(fn, start, goal, stop):
+    seen, todo = set(), [start]
+    while todo:
+        i = todo.pop()
+        if i in seen or i in stop:
+            continue
+        seen.add(i)
+        if i == goal:
+            return True
+        bb = fn.blocks[i]
+        if not bb.cleanup:
+            todo.extend(bb.succ)
+    return False
+
+
+def flush_separation(fns):
+    fn = mir.find(fns, r"src/blob_tree/mod\.rs[^>]*>::flush_to_tables\(")
+    a = Automaton(fn, "O8.4 BlobTree::flush_to_tables: a value of size >= separation_threshold is written to the blob file and replaced by an Indirection; others are written inline")
+    nxt = one([b for b in calls(fn, r"as Iterator>::next$") if "InternalValue" in b.callee], "stream.next()")
+    tomb = one(calls(fn, r"InternalValue::is_tombstone$"), "item.is_tombstone()")
+    bw = one(calls(fn, r"blob_file::multi_writer::MultiWriter::write$"), "blob_writer.write")
+    tws = calls(fn, r"table::multi_writer::MultiWriter::write$")
+    reg = one(calls(fn, r"table::multi_writer::MultiWriter::register_blob$"), "register_blob")
+    # the threshold comparison
+    cmp_sw = None
+    for b in live_blocks(fn):
+        if b.kind != "switch":
+            continue
+        for st in b.stmts:
+            m = re.match(r"^(_\d+) = (Ge|Gt|Le|Lt)\(copy (_\d+), copy (_\d+)\)$", st)
+            if m and m.group(1) in b.args:
+                cmp_sw = (b, m)
+    if cmp_sw is None:
+        raise MirError("flush_to_tables: threshold comparison not found")
+    b, m = cmp_sw
+    op, lhs, rhs = m.group(2), m.group(3), m.group(4)
+    # lhs must be the value's length as u32, rhs the configured separation threshold
+    ldefs = [s2 for bb in live_blocks(fn) for s2 in bb.stmts if s2.startswith(lhs + " = ")]
+    rdefs = [s2 for bb in live_blocks(fn) for s2 in bb.stmts if s2.startswith(rhs + " = ")]
+    len_ok = len(ldefs) == 1 and re.search(r"= move _\d+ as u32 \(IntToInt\)$", ldefs[0]) is not None and \
+        any(re.match(r"^_\d+ = PtrMetadata\(", s2) or "Slice::len" in s2 for s2 in b.stmts + [x for bb in live_blocks(fn) for x in bb.stmts if x.startswith(RE_LOCAL.findall(ldefs[0])[1] + " = ")])
+    names = struct_fields(SRC_ROOT, "src/config/mod.rs", "KvSeparationOptions")
+    thr_ok = False
+    if len(rdefs) == 1:
+        mm = re.search(r"\.(\d+): u32\)$", rdefs[0])
+        thr_ok = mm is not None and int(mm.group(1)) < len(names) and names[int(mm.group(1))] == "separation_threshold"
+    ge_ok = op == "Ge"
+    t_edge, f_edge = bool_edges(fn, b, m.group(1))
+    sep_edge = edge_block(fn, b.idx, t_edge)
+    inl_edge = edge_block(fn, b.idx, f_edge)
+    # the pointer entry: ValueType::Indirection is stored into the key of what is written to the table
+    ind_ok = any(re.search(r"\(\(_\d+\.0: key::InternalKey\)\.2: value_type::ValueType\) = move (_\d+)$", st) for bb in live_blocks(fn) for st in bb.stmts) and \
+        any(re.match(r"^_\d+ = ValueType::Indirection$", st) for bb in live_blocks(fn) for st in bb.stmts)
+    # which side of the comparison separates is decided by where the blob writer is called, not by the operator:
+    # `>` instead of `>=` moves the boundary by one byte but keeps the tree readable (C08 is about invisibility)
+    reach_t = _reaches(fn, t_edge, bw.idx, {nxt.idx})
+    reach_f = _reaches(fn, f_edge, bw.idx, {nxt.idx})
+    if reach_t == reach_f:
+        raise MirError("flush_to_tables: cannot tell which side of the size comparison separates")
+    if reach_f:
+        sep_edge, inl_edge = inl_edge, sep_edge
+    a.glue = [("the entry written for a separated value carries ValueType::Indirection", "proved" if ind_ok else "refuted", 0.0)]
+    good = ind_ok
+    tt, tf, tsw = call_bool_edges(fn, tomb)
+    tomb_edge = edge_block(fn, tsw, tt)
+    a.var("item").var("sep").var("blobbed").var("istomb").var("written")
+    a.event("call:stream.next", [nxt.idx]).on("call:stream.next", "sep", False).on("call:stream.next", "blobbed", False).on("call:stream.next", "istomb", False).on("call:stream.next", "written", False)
+    a.event("edge:item is a tombstone", [tomb_edge]).on("edge:item is a tombstone", "istomb", True)
+    a.event("edge:size >= threshold", [sep_edge] if good else []).on("edge:size >= threshold", "sep", True)
+    a.event("edge:size < threshold", [inl_edge])
+    a.event("call:blob_writer.write", [bw.idx]).on("call:blob_writer.write", "blobbed", True)
+    a.event("call:table_writer.write", [x.idx for x in tws]).on("call:table_writer.write", "written", True)
+    a.event("call:register_blob", [reg.idx])
+    a.require("call:blob_writer.write", "(and {sep} (not {istomb}))", "a tombstone (or an entry that is then written inline) is written to the blob file / the pointer entry is not typed Indirection")
+    a.require("call:table_writer.write", "(=> {sep} {blobbed})", "a value at or above the separation threshold is written into the table without its blob having been written")
+    a.require("call:register_blob", "(and {blobbed} {written})", "a blob reference is registered before the blob and its pointer were written")
+    a.require("call:stream.next", "true", "")
+    return [a]
+
+
+SPECS["O8.4"] = [flush_separation]
